@@ -14,6 +14,7 @@ package tendermint
 //@ extern func github.com/NethermindEth/juno/consensus/votecounter.(*VoteCounter).HasQuorumForAny
 //@   ensures result == quorumAny(round, voteType)
 //@ extern func github.com/NethermindEth/juno/consensus/votecounter.(*VoteCounter).AddProposal
+//@   logged
 //@   modifies *v
 //@   modifies maps
 //@ extern func github.com/NethermindEth/juno/consensus/votecounter.(*VoteCounter).AddPrevote
@@ -259,3 +260,40 @@ package tendermint
 //@   assigns heightFresh
 //@   ensures wal_first: result != nil ==> len(result) >= 1 && istype(result[0], *actions.WriteWAL)
 //@   ensures once: old(s.isHeightStarted) ==> result == nil
+
+// ---- incoming messages are always recorded, also before the height is started --------------------
+// A message for the next height can arrive (and is written to the WAL by the driver) before
+// Start: it must be recorded in the vote counter all the same - replay after a crash feeds the
+// same messages in the same order and has to end in the same state - and it must not be acted on
+// until the height is started.
+//@ func (*stateMachine).hasFuturePrecommitQuorum
+//@   trusted
+//@ func (*stateMachine).triggerSync
+//@   trusted
+//@ func (*stateMachine).ProcessProposal
+//@   props C13, C12
+//@   arith int
+//@   requires s != nil && p != nil
+//@   modifies *
+//@   modifies maps
+//@   assigns calls_AddProposal, arg_AddProposal_proposal
+//@   ensures recorded: calls_AddProposal == old(calls_AddProposal) + 1 && arg_AddProposal_proposal == p
+//@   ensures not_acted_on_before_start: !old(s.isHeightStarted) ==> result == nil
+//@ func (*stateMachine).ProcessPrevote
+//@   props C13, C12
+//@   arith int
+//@   requires s != nil && p != nil
+//@   modifies *
+//@   modifies maps
+//@   assigns calls_AddPrevote, arg_AddPrevote_prevote
+//@   ensures recorded: calls_AddPrevote >= old(calls_AddPrevote) + 1
+//@   ensures not_acted_on_before_start: !old(s.isHeightStarted) ==> result == nil && calls_AddPrevote == old(calls_AddPrevote) + 1 && arg_AddPrevote_prevote == p
+//@ func (*stateMachine).ProcessPrecommit
+//@   props C13, C12
+//@   arith int
+//@   requires s != nil && p != nil
+//@   modifies *
+//@   modifies maps
+//@   assigns calls_AddPrecommit, arg_AddPrecommit_precommit
+//@   ensures recorded: calls_AddPrecommit >= old(calls_AddPrecommit) + 1
+//@   ensures not_acted_on_before_start: !old(s.isHeightStarted) ==> result == nil && calls_AddPrecommit == old(calls_AddPrecommit) + 1 && arg_AddPrecommit_precommit == p
